@@ -6,6 +6,9 @@ mod gen;
 mod c16;
 mod exprs;
 mod c03;
+mod c10;
+mod c12;
+mod queries;
 mod tables;
 
 fn main() {
@@ -45,6 +48,8 @@ fn main() {
             let mut r = match id.as_str() {
                 "C16" => c16::run(&params),
                 "C03" => c03::run(&params),
+                "C10" => c10::run(&params),
+                "C12" => c12::run(&params),
                 _ => { eprintln!("unknown property {}", id); std::process::exit(2); }
             };
             // the witnesses of this property run as part of every check (regression corpus)
